@@ -6,7 +6,9 @@ package jsonschema
 // independently of the package's own field table) and checks independence and equality of the clone.
 //
 // Bound: nesting depth <= 3; per tree either exactly one subschema-bearing field populated (in each of the
-// shapes its type allows: pointer; slice of length 0, 1, 2; map with 0, 1, 2 entries) or all of them.
+// shapes its type allows: pointer; slice of length 0 (with and without spare capacity), 1, 2, always with a
+// spare slot; map with 0, 1, 2 entries) or all of them. Independence is checked for the Schema objects and
+// for the containers themselves (append / insert on one side must not show on the other).
 
 import (
 	"bytes"
@@ -60,7 +62,11 @@ func c20set(s *Schema, f c20field, shape int, child func() *Schema) {
 	case "ptr":
 		v.Set(reflect.ValueOf(child()))
 	case "slice":
-		sl := reflect.MakeSlice(v.Type(), 0, shape)
+		if shape < 0 { // empty slice with spare capacity
+			v.Set(reflect.MakeSlice(v.Type(), 0, 2))
+			return
+		}
+		sl := reflect.MakeSlice(v.Type(), 0, shape+1) // always one spare slot
 		for i := 0; i < shape; i++ {
 			sl = reflect.Append(sl, reflect.ValueOf(child()))
 		}
@@ -164,9 +170,46 @@ func TestBoundedC20(t *testing.T) {
 			p.Title = "mutated"
 			p.Description = "mutated"
 		}
+		// extending every schema-holding slice and map of the clone must not show in the original either
+		for p := range pc {
+			pv := reflect.ValueOf(p).Elem()
+			for _, f := range c20fields() {
+				fv := pv.Field(f.idx)
+				switch f.kind {
+				case "slice":
+					if !fv.IsNil() {
+						fv.Set(reflect.Append(fv, reflect.ValueOf(&Schema{Title: "appended"})))
+					}
+				case "map":
+					if !fv.IsNil() {
+						fv.SetMapIndex(reflect.ValueOf("inserted"), reflect.ValueOf(&Schema{Title: "inserted"}))
+					}
+				}
+			}
+		}
+		// ... and then extending the original's slices must not overwrite what the clone just appended
+		for p := range po {
+			pv := reflect.ValueOf(p).Elem()
+			for _, f := range c20fields() {
+				if fv := pv.Field(f.idx); f.kind == "slice" && !fv.IsNil() {
+					fv.Set(reflect.Append(fv, reflect.ValueOf(&Schema{Title: "orig-appended"})))
+					fv.Set(fv.Slice(0, fv.Len()-1))
+				}
+			}
+		}
 		again, _ := json.Marshal(orig)
 		if !bytes.Equal(before, again) {
-			res.Failures = append(res.Failures, label+": mutating the clone changed the original")
+			res.Failures = append(res.Failures, label+": mutating the clone (fields, appended slice elements, inserted map entries) changed the original")
+		}
+		for p := range pc {
+			pv := reflect.ValueOf(p).Elem()
+			for _, f := range c20fields() {
+				if fv := pv.Field(f.idx); f.kind == "slice" && !fv.IsNil() && fv.Len() > 0 {
+					if last := fv.Index(fv.Len() - 1).Interface().(*Schema); last != nil && last.Title == "orig-appended" {
+						res.Failures = append(res.Failures, label+": clone and original share the backing array of "+f.name)
+					}
+				}
+			}
 		}
 	}
 	fields := c20fields()
@@ -175,8 +218,11 @@ func TestBoundedC20(t *testing.T) {
 	}
 	for _, f := range fields {
 		shapes := []int{1}
-		if f.kind != "ptr" {
+		if f.kind == "map" {
 			shapes = []int{0, 1, 2}
+		}
+		if f.kind == "slice" {
+			shapes = []int{-1, 0, 1, 2}
 		}
 		for _, sh := range shapes {
 			for depth := 1; depth <= 3; depth++ {
